@@ -85,6 +85,10 @@ func check(c Case) (o ev.Outcome) {
 		o.OutOfClaim = "empty member sequence"
 		return
 	}
+	if c.Via == "api-continued" {
+		checkContinued(c, &o, min, max)
+		return
+	}
 	strictAssign, strictBad, strictWhy := numref.Numbering(c.Members, min, max, true)
 	lenAssign, lenBad, lenWhy := numref.Numbering(c.Members, min, max, c.Kind == "enum")
 	verdict := "may"
@@ -250,6 +254,86 @@ func check(c Case) (o ev.Outcome) {
 	return o
 }
 
+// checkContinued: the member sequence is fed to Set/SetNext to its end, also past rejected members (as the library
+// itself does when it resolves a type statement, so as to report every bad member). A rejected member is assigned
+// nothing: the members after it are numbered as if it had not been written. Enumerations only (for bits the
+// property leaves a repeated position open).
+func checkContinued(c Case, o *ev.Outcome, min, max *big.Int) {
+	if c.Kind != "enum" {
+		o.OutOfClaim = "continued sequences are judged for enumerations only"
+		return
+	}
+	names := map[string]bool{}
+	used := map[string]bool{}
+	var highest *big.Int
+	want := map[string]int64{}
+	expect := make([]*big.Int, len(c.Members)) // nil = rejected
+	rejected := 0
+	for i, m := range c.Members {
+		var v *big.Int
+		switch {
+		case names[m.Name]:
+		case m.Explicit:
+			if x, ok := new(big.Int).SetString(m.Value, 10); ok && x.Cmp(min) >= 0 && x.Cmp(max) <= 0 {
+				v = x
+			}
+		case highest == nil:
+			v = new(big.Int)
+		case highest.Cmp(max) < 0:
+			v = new(big.Int).Add(highest, big.NewInt(1))
+		}
+		if v != nil && used[v.String()] {
+			v = nil
+		}
+		if v == nil {
+			rejected++
+			continue
+		}
+		names[m.Name], used[v.String()] = true, true
+		if highest == nil || v.Cmp(highest) > 0 {
+			highest = v
+		}
+		expect[i] = v
+		want[m.Name] = v.Int64()
+	}
+	o.Class("enum/api-continued")
+	if rejected > 0 && rejected < len(c.Members) {
+		o.Class("enum/api-continued/members-after-a-rejected-one")
+	}
+	o.NonTrivial = rejected > 0 && len(want) > 0
+	ev.Guard(o, "EnumType.Set/SetNext past rejected members", func() {
+		et := yang.NewEnumType()
+		for i, m := range c.Members {
+			var err error
+			if m.Explicit {
+				v, _ := new(big.Int).SetString(m.Value, 10)
+				if v == nil || !v.IsInt64() {
+					o.OutOfClaim = "explicit value not expressible through the int64 API"
+					return
+				}
+				err = et.Set(m.Name, v.Int64())
+			} else {
+				err = et.SetNext(m.Name)
+			}
+			if (err == nil) != (expect[i] != nil) {
+				o.Violate("continued-sequence", "C14/enum/api-continued/wrong-verdict/"+memberClass(c.Members, i, min, max), "sequence [%s] fed to its end: member #%d (%s) returned %v, expected value %v (nil = rejected)", seqString(c.Members), i, m, err, expect[i])
+				return
+			}
+		}
+		nm := et.NameMap()
+		if len(nm) != len(want) {
+			o.Violate("continued-sequence", "C14/enum/api-continued/names", "sequence [%s] fed to its end: NameMap %v, expected %v", seqString(c.Members), nm, want)
+			return
+		}
+		for n, v := range want {
+			if got, ok := nm[n]; !ok || got != v || et.Name(v) != n {
+				o.Violate("continued-sequence", "C14/enum/api-continued/wrong-value", "sequence [%s] fed to its end: %s = %d (present %v), expected %d; NameMap %v", seqString(c.Members), n, got, ok, v, nm)
+				return
+			}
+		}
+	})
+}
+
 func expectStr(assign []*big.Int, i int) string {
 	if i < len(assign) {
 		return assign[i].String()
@@ -332,7 +416,10 @@ func enumerate(tier string, shard, shards int, emit func(Case) bool) bool {
 			idx++
 			if idx%shards == shard {
 				for _, kind := range []string{"enum", "bits"} {
-					for _, via := range []string{"api", "module"} {
+					for _, via := range []string{"api", "module", "api-continued"} {
+						if via == "api-continued" && kind != "enum" {
+							continue
+						}
 						cp := append([]numref.Member(nil), ms...)
 						if !emit(Case{Kind: kind, Via: via, Members: cp}) {
 							ok = false
@@ -362,7 +449,7 @@ func enumerate(tier string, shard, shards int, emit func(Case) bool) bool {
 }
 
 func gen(t *rapid.T) Case {
-	c := Case{Kind: rapid.SampledFrom([]string{"enum", "bits"}).Draw(t, "kind"), Via: rapid.SampledFrom([]string{"api", "module", "module", "typedef"}).Draw(t, "via")}
+	c := Case{Kind: rapid.SampledFrom([]string{"enum", "bits"}).Draw(t, "kind"), Via: rapid.SampledFrom([]string{"api", "module", "module", "typedef", "api-continued"}).Draw(t, "via")}
 	n := rapid.IntRange(1, 12).Draw(t, "n")
 	min, max := enumMin, enumMax
 	if c.Kind == "bits" {
